@@ -171,6 +171,7 @@ Probes ==
       muts == {Mutate(c0, m) : c0 \in base, m \in Mutations}
   IN IF Len(chain) >= MaxLen THEN {} ELSE {c \in muts : ~Accept(c)}
 
+
 NDel == Cardinality({i \in 1..Len(script) : script[i].op = "delete"})
 NRestart == Cardinality({i \in 1..Len(script) : script[i].op = "restart"})
 DeleteTip ==
@@ -201,6 +202,19 @@ TieBreakCand ==
    mhg |-> LastForgedBelow(g), ac |-> [h |-> ParentV.cert, kind |-> "empty", signers |-> {}],
    txRoot |-> "ok", assetRoot |-> "ok", eventRoot |-> "ok", stateRoot |-> "ok", vhash |-> "ok", txStatic |-> "ok", payload |-> "ok",
    chg |-> 0, ntx |-> 0, mut |-> "none"]
+\* invalid competitors of the tip that satisfy the LIP-0014 tie-break conditions: the tip must survive unchanged
+TieProbes ==
+  IF Len(chain) >= 1 /\ Tip.slot < Now /\ recvKnown /\ Tip.h > fin /\ TieBreakCand.gen # Tip.gen /\ TieBreakCand.mhp = Tip.mhp
+  THEN {[TieBreakCand EXCEPT !.signer = OtherGen(TieBreakCand.gen), !.mut = "tiebreak-sig-wrongkey"],
+        [TieBreakCand EXCEPT !.stateRoot = "bad", !.mut = "tiebreak-stateroot"]}
+  ELSE {}
+\* a second block by the tip's own generator for the same height (double forging) is discarded; so is the tip itself
+DoubleForgeProbe ==
+  LET g == ParamsAt(ParentV.gkeys, Tip.h).gens  s2 == Tip.slot + Len(g) IN
+  IF Len(chain) >= 1 /\ s2 <= Now /\ GenAt(ParentV, Tip.h, s2) = Tip.gen
+  THEN {[TieBreakCand EXCEPT !.slot = s2, !.gen = Tip.gen, !.signer = Tip.gen, !.mhg = LastForgedBelow(Tip.gen), !.mut = "double-forging"]}
+  ELSE {}
+
 NTie == Cardinality({i \in 1..Len(script) : script[i].op = "tiebreak"})
 SubmitTieBreak ==
   /\ Len(script) < MaxSteps /\ Len(chain) >= 1 /\ Tip.slot < Now /\ NTie < MaxTie
@@ -243,7 +257,7 @@ ProbesRejected == \A c \in Probes : ~Accept(c)
 ValidAccepted == \A c \in ValidCands : Accept(c)
 
 Complete == Len(script) = MaxSteps \/ ~ENABLED Next
-ProbeSteps == SetToSeq({Step(c, FALSE, chain, vstack, fin, temp, evlog, <<>>) : c \in Probes})
+ProbeSteps == SetToSeq({Step(c, FALSE, chain, vstack, fin, temp, evlog, <<>>) : c \in Probes \cup TieProbes \cup DoubleForgeProbe})
 DumpInv == (DumpEvery > 0 /\ Len(script) > 0 /\ RandomElement(1..DumpEvery) = 1)
              => PrintT(<<"DUMP", ToJson([script |-> script, probes |-> ProbeSteps])>>)
 =============================================================================
